@@ -76,4 +76,11 @@ theorem batch_insert_eq_fold (s : RState K V) (items : List (K × V)) (hi : Inv 
       some (C01.specRun (abs s) (items.map fun p => C01.Op.insert p.1 p.2)) :=
   C01.run_refines _ s hi
 
+/-- the integrity checks that `try_insert` / `try_remove` / `batch_insert` / `validate_for_operation` run
+    (`check_invariants_detailed`) succeed on every state built through the map-level API: they never
+    report a data-integrity, arena or corruption error there -/
+theorem validate_for_operation_ok (s : RState K V) (hs : SInv s) (hsm : Small s) :
+    (view s).checkDetailed Cfg.repaired = .ok none ∧ (view s).checkInvariants Cfg.repaired = .ok true :=
+  ⟨view_checkDetailed s hs hsm, view_checkInvariants s hs hsm⟩
+
 end BPT.Props.C10
